@@ -98,6 +98,7 @@ func (ds *AnySource) RunDoneActivate() {
 
 // RunDoneDeactivate calls Done on ds.runDone, this should only be called (by defer) in Start
 func (ds *AnySource) RunDoneDeactivate() {
+	verifPoint("deactivate.enter")
 	ds.sourceStateLock.Lock()
 	ds.sourceState = Inactive
 	ds.runDone.Done()
@@ -145,6 +146,7 @@ func Start(ds DataSource, queuedRequests chan func(), Npresamp int, Nsamples int
 		ds.SetStateInactive()
 		return err
 	}
+	verifPoint("start.sampled")
 
 	if err := ds.PrepareChannels(); err != nil {
 		ds.SetStateInactive()
@@ -157,12 +159,14 @@ func Start(ds DataSource, queuedRequests chan func(), Npresamp int, Nsamples int
 	}
 
 	ds.RunDoneActivate() // Call RunDoneDeactivate inside CoreLoop when it returns.
+	verifPoint("start.activated")
 	if err := ds.StartRun(); err != nil {
 		ds.RunDoneDeactivate()
 		return err
 	}
 
 	go CoreLoop(ds, queuedRequests)
+	verifPoint("start.done")
 	return nil
 }
 
@@ -173,6 +177,7 @@ func CoreLoop(ds DataSource, queuedRequests chan func()) {
 	nextBlock := ds.getNextBlock()
 
 	for {
+		verifPoint("core.idle")
 		// Use select to interleave 2 activities that should NOT be done concurrently:
 		// 1. Handle RPC requests to change data processing parameters (e.g. trigger).
 		// 2. Handle new data and process it.
@@ -180,18 +185,22 @@ func CoreLoop(ds DataSource, queuedRequests chan func()) {
 
 		// Handle RPC requests
 		case request := <-queuedRequests:
+			verifPoint("core.request.begin")
 			request()
+			verifPoint("core.request.end")
 
 		// Handle data, or recognize the end of data
 		case block, ok := <-nextBlock:
 			if !ok {
 				// nextBlock was closed in the data production loop when abortSelf was closed
 				log.Println("nextBlock channel was closed; stopping the source normally")
+				verifPoint("core.exit.closed")
 				return
 
 			} else if block.err != nil {
 				// errors in block indicate a problem with source: need to close down
 				log.Printf("nextBlock received Error; stopping source: %s\n", block.err.Error())
+				verifPoint("core.exit.err")
 				return
 			}
 			if err := ds.ProcessSegments(block); err != nil {
@@ -201,12 +210,14 @@ func CoreLoop(ds DataSource, queuedRequests chan func()) {
 			// In some sources, ds.getNextBlock has to be called again to initiate the next
 			// data acquisition step (Lancero, specifically).
 			nextBlock = ds.getNextBlock()
+			verifPoint("core.process.end")
 		}
 	}
 }
 
 // Stop tells the data supply to deactivate.
 func (ds *AnySource) Stop() error {
+	verifPoint("stop.enter")
 	ds.sourceStateLock.Lock()
 	switch ds.sourceState {
 	case Inactive:
@@ -228,8 +239,10 @@ func (ds *AnySource) Stop() error {
 	ds.sourceState = Stopping
 	closeIfOpen(ds.abortSelf)
 	ds.sourceStateLock.Unlock()
+	verifPoint("stop.signalled")
 
 	ds.RunDoneWait()
+	verifPoint("stop.waited")
 	ds.groupKeysSorted = make([]GroupIndex, 0)
 	if ds.writingState.Active { // if writing, Stop writing
 		wcc := WriteControlConfig{Request: "STOP"}
@@ -410,6 +423,7 @@ func (ds *AnySource) archiveNewDataBlock(block *dataBlock) {
 // in parallel. Returns when all segments have been processed.
 // It's more synchronous than our original plan of each dsp launching its own goroutine.
 func (ds *AnySource) ProcessSegments(block *dataBlock) error {
+	defer verifSpan("process")()
 	nchan := len(block.segments)
 	nproc := len(ds.processors)
 	if nproc != nchan {
@@ -441,6 +455,7 @@ func (ds *AnySource) ProcessSegments(block *dataBlock) error {
 	// Build a map to hold triggerList for each channel index, and then ask the TriggerBroker
 	// to compute the corresponding slice of secondary trigger FrameIndex values for each
 	// channel index.
+	verifPoint("process.primaries.done")
 	allchanTrigList := make(map[int]triggerList)
 	for idx, dsp := range ds.processors {
 		allchanTrigList[idx] = dsp.lastTrigList
@@ -511,6 +526,7 @@ func (ds *AnySource) ProcessSegments(block *dataBlock) error {
 // SetExperimentStateLabel writes to a file with name like XXX_experiment_state.txt
 // the file is created upon the first call to this function for a given file writing
 func (ds *AnySource) SetExperimentStateLabel(timestamp time.Time, stateLabel string) error {
+	defer verifSpan("effect.statelabel")()
 	return ds.writingState.SetExperimentStateLabel(timestamp, stateLabel)
 }
 
@@ -648,6 +664,7 @@ func makeDirectory(basepath string) (string, error) {
 // For (WriteLJH22 == true) and/or (WriteLJH3 == true), all channels will have writing enabled
 // For (WriteOFF == true), only chanels with projectors set will have writing enabled
 func (ds *AnySource) WriteControl(config *WriteControlConfig) error {
+	defer verifSpan("effect.writecontrol")()
 	requestStr := strings.ToUpper(config.Request)
 	switch {
 	case strings.HasPrefix(requestStr, "PAUSE"):
@@ -788,6 +805,7 @@ func (ds *AnySource) WritingIsActive() bool {
 
 // ConfigureProjectorsBases calls SetProjectorsBasis on ds.processors[channelIndex]
 func (ds *AnySource) ConfigureProjectorsBases(channelIndex int, projectors *mat.Dense, basis *mat.Dense, modelDescription string) error {
+	defer verifSpan("effect.projectors")()
 	if channelIndex >= len(ds.processors) || channelIndex < 0 {
 		return fmt.Errorf("channelIndex out of range, channelIndex=%v, len(ds.processors)=%v", channelIndex, len(ds.processors))
 	}
@@ -996,6 +1014,7 @@ func (ds *AnySource) ComputeFullTriggerState() []FullTriggerState {
 
 // ChangeTriggerState changes the trigger state for 1 or more channels.
 func (ds *AnySource) ChangeTriggerState(state *FullTriggerState) error {
+	defer verifSpan("effect.trigger")()
 	if state.ChannelIndices == nil || len(state.ChannelIndices) < 1 {
 		return fmt.Errorf("got ConfigureTriggers with no valid ChannelIndices")
 	}
@@ -1020,6 +1039,7 @@ func (ds *AnySource) ChannelNames() []string {
 
 // ConfigurePulseLengths set the pulse record length and pre-samples.
 func (ds *AnySource) ConfigurePulseLengths(nsamp, npre int) error {
+	defer verifSpan("effect.pulselengths")()
 	if npre < 3 || // edgeTrigger looks at npre-3
 		nsamp < 1 || // require at least 1 sample
 		nsamp < npre+1 { // require at least one post trigger sample
@@ -1045,6 +1065,7 @@ func (ds *AnySource) SetCoupling(status CouplingStatus) error {
 // ChangeGroupTrigger either adds or deletes the connections in `gts` (add when `turnon` is true,
 // otherwise delete).
 func (ds *AnySource) ChangeGroupTrigger(turnon bool, gts *GroupTriggerState) error {
+	defer verifSpan("effect.grouptrigger")()
 	// changer is either the Add or Delete function, depending on turnon
 	changer := ds.broker.DeleteConnection
 	if turnon {
@@ -1060,6 +1081,7 @@ func (ds *AnySource) ChangeGroupTrigger(turnon bool, gts *GroupTriggerState) err
 
 // StopTriggerCoupling turns off all trigger coupling, including all group triggers and FB/Err coupling.
 func (ds *AnySource) StopTriggerCoupling() error {
+	defer verifSpan("effect.stopcoupling")()
 	return ds.broker.StopTriggerCoupling()
 }
 
@@ -1091,6 +1113,7 @@ func (ds *AnySource) writeNPZData(file *os.File) error {
 // in the form of a `storeableDataBlock` struct, then when it's done, writes that info
 // to the numpy-style npz file `file`. Finally, it closes that file and renames it to `finalName`.
 func (ds *AnySource) ArchiveDataBlock(N int, file *os.File, finalName string) error {
+	defer verifSpan("effect.archive")()
 	if ds.archiveBlock.active {
 		return fmt.Errorf("cannot start archive block, because one is already being acquired")
 	}
